@@ -677,18 +677,21 @@ def check_property(prop, tier):
             viol.append((r, ob))
 
     rc = 0
+    skipped = 0
     violation_lines = []
     if viol:
         rc = 1
         seen = set()
+        skipped = 0
         for r, ob in viol:
-            key = (r.name, ob["label"] or ob["id"])
+            # one line per harness and labelled obligation; unlabelled (safety, frame,
+            # loop) obligations are grouped by class
+            key = (r.name, ob["label"] or ("%s checks in %s" % (ob["cls"], ob["fn"] or "?")))
             if key in seen:
                 continue
             seen.add(key)
             if len(seen) > 4:
-                violation_lines.append("VIOLATION property=%s replay=%s (obligation %s in %s; further replays not generated) no-failing-input-found"
-                                       % (prop, "-", key[1], r.name))
+                skipped += 1
                 continue
             path, reproduced = write_replay(prop, r, ob, tier)
             violation_lines.append("VIOLATION property=%s replay=%s obligation=%s harness=%s%s" % (
@@ -704,6 +707,8 @@ def check_property(prop, tier):
 
     for line in violation_lines:
         print(line)
+    if viol and skipped:
+        print("(%d further refuted obligations of %s not listed individually; see evidence/%s.json)" % (skipped, prop, prop))
     if rc == 2:
         for r in no_verdict:
             print("NO-VERDICT property=%s harness=%s: %s" % (prop, r.name, "; ".join(r.problems)[:600]))
